@@ -221,7 +221,7 @@ def _work(item, seed, tier):
 
 
 def vectors(n, quick):
-    alph = FULL if n == 1 else (FULL if n == 2 and not quick else SMALL)
+    alph = FULL if n == 1 else (FULL if n in (2, 3) and not quick else SMALL)
     if n == 2 and quick:
         # every code against accepted/rejected neighbour
         return [(a, b) for a in FULL for b in (0, -70402)] + [(b, a) for a in FULL for b in (0, -70402)]
@@ -253,7 +253,7 @@ def plan(tier):
         if quick and len(ids) > 3:
             continue
         reps = []
-        alph = [0, "ok+status0", "omit"] + (FULL[1:] if len(ids) <= 2 else SMALL[1:])
+        alph = [0, "ok+status0", "omit"] + (FULL[1:] if len(ids) <= (2 if quick else 3) else SMALL[1:])
         for vec in itertools.product(alph, repeat=len(ids)):
             reps.append((list(vec), "list", "none", False, None))
         for g in (-70402, 70402, -12345, 0):
